@@ -134,6 +134,10 @@ class Repo:
                 mod = Module(rel, dotted, path, src, tree)
                 self.modules[rel] = mod
                 mods.append(mod)
+        # normalisation: `match` statements become the if/elif chains they abbreviate (see sa/desugar.py)
+        from .desugar import desugar
+        for m in mods:
+            desugar(m.tree)
         # normalisation: inline helpers the rule set has never seen (see sa/inline.py)
         self.inline_log: list[str] = []
         self.known_funcs: set[str] = set()
